@@ -417,9 +417,15 @@ pub fn main(tier: Option<&str>) {
     }
     for t in 0..=255u8 {
         // decoding a header: exactly the 8 pinned tags decode, to the pinned kinds
-        let r = RecordHeader::try_deserialize(&[0x91, t]);
         let want = TAGS.iter().find(|x| x.1 == t).map(|x| x.0);
         run.case(format!("untag:{t}").as_bytes(), true);
+        let r = match catch(|| RecordHeader::try_deserialize(&[0x91, t])) {
+            Ok(r) => r,
+            Err(p) => {
+                run.violation("no-panic", "RecordHeader::try_deserialize", format!("decoding the header [0x91, {t}] panicked: {p}"), json!({"op":"untag","tag":t}));
+                continue;
+            }
+        };
         if r.as_ref().ok().map(|h| h.kind) != want {
             run.violation("tag-table", "decode", format!("tag {t} decodes to {:?}, pinned {want:?}", r.map(|h| h.kind)), json!({"op":"untag","tag":t}));
         }
